@@ -34,6 +34,7 @@ def _known_const(x):
         (_S3 / 6, lambda tr: tr.var("s3", _S3) / 6),
         (2 * _S3, lambda tr: 2 * tr.var("s3", _S3)),
         (2 / _S3, lambda tr: 2 / tr.var("s3", _S3)),
+        (6 / _S3, lambda tr: 6 / tr.var("s3", _S3)),
         (math.pi / 4, lambda tr: tr.var("pi", math.pi) / 4),
         (math.pi / 2, lambda tr: tr.var("pi", math.pi) / 2),
         (math.pi / 6, lambda tr: tr.var("pi", math.pi) / 6),
